@@ -26,6 +26,11 @@ NA = {
 PENDING = {}
 
 CHECKS = [
+    dict(pid="C13", level="model_checking",
+         text="CLIENT step, from MIR: hub_sync's orchestration over an ordered universe of 2 (quick) / 3 (thorough) paths with the hub's listing and the local scan symbolic and HubClient's methods summarised — exactly the local files whose hash differs from the listed one (or that the hub does not list) are Put, once each, in path order, carrying the file's hash, its path under the local root and the LISTED hash as `expected`; nothing but connect/list/put/bye is requested (hub files at other paths are never addressed); exit 0 exactly when the run completed and every Put committed. HubClient::put with the pipe as a recorder: one Put frame with the given path/expected/hash and the file's length, then the file streamed, flushed, then the reply read; Ok(committed) only for a PutResult reply.",
+         ref="DESIGN.md §14 hub-sync client",
+         note="The server end of the pipe is decided separately (C03/C10/C11/C12); a second client between List and Put is C03's subject (the Put carries the listed hash, so a stale one cannot commit). The directory scan and target parsing (host:root) are not covered. Validation each run: the real hub_sync against the real serve() loop in a child process on 5 scenarios, twice (second run sends nothing).",
+         technique="SMT over MIR (orchestration over a BTreeMap model with summarised client calls; request/stream order as a recorded trace); native end-to-end replay"),
     dict(pid="C02", level="model_checking",
          text="STEP level, from MIR with the file system as an effect recorder: for ONE bidir::apply call with ANY action, any fingerprints on either side (maps are uninterpreted functions of map and key) and every file-system operation allowed to fail, the solver shows: a file is removed only by a Delete action and only that side's path; Noop/ConvergeIdentical request nothing; copies go to a `.copia-tmp` sibling and only a rename puts bytes at a path; a live path is overwritten only as the action says and only with the other side's live content; on a both-changed conflict the losing version is delivered to the same conflict name under BOTH roots before its own path is overwritten; delete-vs-modify never removes and restores the survivor; propagation delivers or reports an error.",
          ref="DESIGN.md §13 bisync",
@@ -141,7 +146,7 @@ def build():
             "add_only": True,
         },
         "engines": [
-            {"name": "mirsmt", "path": "/verif/mirsmt", "serves_properties": ["C01", "C02", "C03", "C05", "C06", "C07", "C08", "C10", "C11", "C12", "C14", "C15", "C16", "C17", "C18", "C19", "C20"],
+            {"name": "mirsmt", "path": "/verif/mirsmt", "serves_properties": ["C01", "C02", "C03", "C05", "C06", "C07", "C08", "C10", "C11", "C12", "C13", "C14", "C15", "C16", "C17", "C18", "C19", "C20"],
              "kind_free_text": "own symbolic executor over nightly rustc MIR text -> z3 terms (Int encoding with explicit wrap); z3 decides, cvc5 / z3 4.8.12 re-decide the exported SMT-LIB2"},
             {"name": "kani", "path": "/verif/kani-lib, /verif/kani-bin", "serves_properties": ["C01", "C05", "C18", "C19", "C20"],
              "kind_free_text": "Kani 0.68 / CBMC 6.11 proof harnesses in out-of-tree crates over the real code (path dependency; environment shims for blake3, rayon, rustc-hash)"},
